@@ -526,11 +526,12 @@ def d5(ctx, prog, ci):
 
 
 def d6(ctx, prog, modname, rule):
-    eff = alias.Effects(prog)
+    effs = {}
     n = 0
     for f in prog.funcs_in(modname):
         if f.parent is not None:
             continue
+        eff = effs.setdefault(f.cls.key if f.cls else None, alias.Effects(prog, f.cls))
         for st, desc, cl in eff.writes(f):
             n += 1
             key = f'{f.key}::{norm(st)[:90]}'
